@@ -66,6 +66,9 @@ class Oracles:
             if got == "TaskGroupAlreadyExists" and rm.spec.get("gname") is None:
                 # an unnamed request: the name the pool generated for it collides with a live group
                 w.fail(props | {"C10"}, "group/generated-name-collides-with-live-group", f"{rm.kind} raised {got}: {exc}")
+            elif rm.spec.get("gname") is None and rm.kind != "start" and not isinstance(exc, self.L.exceptions.PoolException):
+                # an unnamed request dies of an exception that is none of the library's own: no name could be generated for it
+                w.fail(props | {"C10"}, "spawn/unnamed-request-failed-with-foreign-exception", f"{rm.kind} of {rm.spec.get('worker', {}).get('fname')!r} raised {got}: {exc}")
             else:
                 w.fail(props, "spawn/rejected-without-cause", f"{rm.kind} raised {got}: {exc}")
         else:
@@ -241,6 +244,22 @@ class Oracles:
                 self.request_cancel(tm)
                 if tm.req is not None:
                     tm.req.single_cancels += 1
+        self.untouched_by(pm, {"C06"}, "cancel", f"ids {ids}")
+
+    def untouched_by(self, pm: PoolM, props: Set[str], what: str, detail: str) -> None:
+        """Exactness of an operation on single tasks: no group is forgotten, no request's spawner is cancelled."""
+        w = self.w
+        for name, rm in pm.groups_live.items():
+            try:
+                pm.pool.get_group_ids(name)
+            except Exception as e:
+                w.fail(props, what + "/forgot-a-group", f"{detail}: {name}: {type(e).__name__}")
+                break
+        for rm in pm.reqs:
+            sp = rm.spawner
+            if sp is not None and not sp.done() and not rm.cancelled and sp.cancelling():
+                w.fail(props, what + "/cancelled-a-spawner", f"{detail}: r{rm.rid}({rm.kind})")
+                break
 
     def request_cancel(self, tm: TaskM) -> None:
         tm.request_cancel()
@@ -399,6 +418,8 @@ class Oracles:
                 pass
             else:
                 w.fail({"C14"}, "stop/returned-non-running-id", f"{tid}")
+        # exact: nothing but the returned tasks is touched
+        self.untouched_by(pm, {"C14"}, "stop", f"n={n} R={R} returned {list(got)}")
 
     # ================================================================== pool_size (C15)
     def op_set_size(self, op: dict, ctx: dict) -> None:
